@@ -207,7 +207,7 @@ def _region_map(a_items, b_items, sub_names):
         # main region = everything not inside a subroutine body; bodies start at their label and end
         # before the next subroutine label / main_start
         for i, it in enumerate(items):
-            if it[0] == "L" and (it[1] in sub_names or it[1] in ("checker", "approve_end")):
+            if it[0] == "L" and (it[1] in sub_names or it[1] in ("checker", "approve_end") or (it[1].startswith("vs") and it[1][2:3].isdigit())):
                 cur = it[1]
                 regs[cur] = []
             elif it[0] == "L" and it[1] == "main_start":
